@@ -715,3 +715,57 @@ Example C09_same_cell_unfold : forall T mat_of dens_of (c : cell) (ncl : M5.cell
   c_mat c = mat_of (M5.c_mat ncl) /\ c_dens c = dens_of (M5.c_rho ncl) /\
   c_fill c = None /\ M5.c_fill ncl = None.
 Proof. intros. reflexivity. Qed.
+
+(* ------------------------------------------------------------------------ *)
+(* LINK with C06 (lattices), through C05                                      *)
+(* ------------------------------------------------------------------------ *)
+From Coq Require Import Reals.
+From T4V Require C06.Model C06.LinkC05.
+From T4V Require Import C09.LinkC06.
+
+(* C06/LinkC05.v: [develop_state] = the stateful half of develop_lattice over
+   C05's table (T := 12 reals or empty, P := R^3); its [develop_state_spec] says
+   every element cell keeps the lattice cell's material, density and provenance.
+   With C05_pot_fill_located and C09_geomcomp_name: for a point located in the
+   developed table along ch below a filled cell, the volume containing it is on
+   the GEOMCOMP line of the last cell of ch, and when that cell is an element
+   cell of the lattice (array entry = the lattice's own universe) the line is
+   the one named after the LATTICE CELL's material number and density — the
+   analogue of C09_lattice_leaf_material on C05's / C06's models.  Which lattice
+   index a point falls in is C06_lattice_end_to_end_linked's statement. *)
+Theorem C09_lattice_element_material_linked :
+  forall (surf : Type) (teqb : list R -> list R -> bool) (tr_surf : list R -> surf -> surf)
+         (inv : list R -> @M6.vec R -> @M6.vec R) (sense : surf -> @M6.vec R -> bool),
+  (forall t o p, sense (tr_surf t o) p = sense o (inv t p)) ->
+  (forall a b, teqb a b = true -> @M6.is_nil R a = @M6.is_nil R b /\ forall p, inv a p = inv b p) ->
+  forall (mat_of : Z -> string) (dens_of : Z -> option string)
+         (fuel cf : nat) (latkey : Z) (lcl : M5.cell (list R)) (elems : list (@M6.new_elem R))
+         (s0 s1 s2 : M5.state (list R) surf) (keys : list Z) (du : list (Z * list Z))
+         (ifd ifg : bool) (key : Z) (ks : list Z),
+  P5.Inv (list R) surf (@M6.vec R) (@M6.is_nil R) inv sense s0 ->
+  M5.dget latkey (M5.s_cells s0) = Some lcl ->
+  Forall (fun e => @M6.is_nil R (M6.ne_trnsf e) = false) elems ->
+  L6.develop_state surf teqb tr_surf fuel latkey elems s0 = M5.Ok (keys, s1) ->
+  (forall c cl, M5.dget c (M5.s_cells s1) = Some cl -> M5.c_orig cl = []) ->
+  (forall u c, In c (M5.du_get u du) -> exists cl, M5.dget c (M5.s_cells s1) = Some cl) ->
+  (exists cl, M5.dget key (M5.s_cells s1) = Some cl) ->
+  M5.pot_fill (list R) surf (@M6.is_nil R) teqb tr_surf fuel cf du ifd ifg key s1 = M5.Ok (ks, s2) ->
+  forall vols g p,
+  (forall k, In k ks -> S5.Den (list R) surf (@M6.vec R) sense s2 p (M5.TRef k) true ->
+     exists v ncl, In (k, v) vols /\ v_fictive v = false /\
+                   M5.dget k (M5.s_cells s2) = Some ncl /\ v_origin v = M5.c_orig ncl) ->
+  geomcomp vols (bridge_cells (list R) mat_of dens_of (M5.s_cells s2)) = Ok g ->
+  forall ch, S5.Located (list R) surf (@M6.vec R) (@M6.is_nil R) inv sense s1 du key p ch ->
+  exists k lf z,
+    In k ks /\ S5.Den (list R) surf (@M6.vec R) sense s2 p (M5.TRef k) true /\
+    M5.dget (last ch 0%Z) (M5.s_cells s1) = Some lf /\
+    int_of_token (mat_of (M5.c_mat lf)) = Some z /\
+    member g (material_name z (bridge (list R) mat_of dens_of lf)) k /\
+    (In (last ch 0%Z) keys ->
+       M5.c_mat lf = M5.c_mat lcl /\ M5.c_rho lf = M5.c_rho lcl /\
+       member g (material_name z (bridge (list R) mat_of dens_of lcl)) k).
+Proof.
+  intros surf teqb tr_surf inv sense H1 H2 mat_of dens_of.
+  exact (lattice_element_material_linked surf teqb tr_surf inv sense H1 H2 mat_of dens_of).
+Qed.
+Print Assumptions C09_lattice_element_material_linked.
